@@ -832,7 +832,7 @@ func (p *sparser) rewrite(s string) (string, error) {
 		inner := s[i+1 : j]
 		parts := splitTop(inner, ',')
 		for k, part := range parts {
-			if findTop(part, "==>") >= 0 {
+			if findTop(part, "==>") >= 0 || findTop(part, "<==>") >= 0 {
 				sub, err := p.top(part)
 				if err != nil {
 					return "", err
